@@ -826,9 +826,42 @@ class ComputeGraph(MultiDiGraph):
 
         # a buffer that is filled slot by slot stands for the collection of its slot expressions, so that delayed terms
         # which reach the vector field through such a buffer are found as well
+        buffer_names = set()
         for buffer, slots in slot_exprs.items():
             if buffer not in non_de_exprs:
                 non_de_exprs[buffer] = sp.Function(str(buffer))(*[slots[k] for k in sorted(slots, key=str)])
+                buffer_names.add(str(buffer))
+
+        def _vector_length(sym) -> int:
+            try:
+                return int(np.prod(self.get_var(str(sym)).shape))
+            except Exception:
+                return 0
+
+        def _unroll_buffer_sums(expr):
+            """`sum(w * buffer)` over a slot-wise buffer of n scalar expressions is written out term by term
+            (`w[0]*slot_0 + w[1]*slot_1 + ...`), which the scalar differentiation rules can handle."""
+            def is_buffer(e):
+                return isinstance(e, sp.core.function.AppliedUndef) and e.func.__name__ in buffer_names
+
+            def unroll(e):
+                arg = e.args[0]
+                buffers = [a for a in arg.atoms(sp.core.function.AppliedUndef) if is_buffer(a)]
+                n = len(buffers[0].args)
+                if any(len(b.args) != n for b in buffers):
+                    return e
+                terms = []
+                for i in range(n):
+                    term = arg.xreplace({b: b.args[i] for b in buffers})
+                    term = term.xreplace({s: sp.Function('index_1d')(s, sp.Integer(i))
+                                          for s in term.free_symbols if n > 1 and _vector_length(s) == n})
+                    terms.append(term)
+                return sp.Add(*terms)
+
+            return expr.replace(
+                lambda e: isinstance(e, sp.core.function.AppliedUndef) and e.func.__name__ in ('sum', 'vsum')
+                and len(e.args) == 1 and any(is_buffer(a) for a in e.args[0].atoms(sp.core.function.AppliedUndef)),
+                unroll)
 
         def _expand_non_de(expr):
             """Substitute non-DE symbols with their full expressions."""
@@ -855,6 +888,8 @@ class ComputeGraph(MultiDiGraph):
             # expand non-DE symbols to reveal any past() calls
             expr = _expand_non_de(expr)
             expr, new_past = self._extract_past_terms(expr)
+            if buffer_names:
+                expr = _unroll_buffer_sums(expr)
             past_map.update(new_past)
             f_exprs.append(expr)
             y_syms.append(lhs_node.symbol)
